@@ -1275,15 +1275,27 @@ func (g *G) sigMessage() (string, []sigHdr, string, string, string) {
 	return method, hs, cid, tag, branch
 }
 
-func renderSig(method string, hs []sigHdr, body string) string {
+// the Content-Length header goes to position clAt (clamped), so that any header can be the last one
+func renderSigAt(method string, hs []sigHdr, body string, clAt int) string {
 	var sb strings.Builder
 	sb.WriteString(method + " sip:x@y SIP/2.0\r\n")
-	for _, h := range hs {
+	cl := "Content-Length: " + fmt.Sprint(len(body)) + "\r\n"
+	if clAt > len(hs) || clAt < 0 {
+		clAt = len(hs)
+	}
+	for i, h := range hs {
+		if i == clAt {
+			sb.WriteString(cl)
+		}
 		sb.WriteString(h.line + "\r\n")
 	}
-	sb.WriteString("Content-Length: " + fmt.Sprint(len(body)) + "\r\n\r\n" + body)
+	if clAt == len(hs) {
+		sb.WriteString(cl)
+	}
+	sb.WriteString("\r\n" + body)
 	return sb.String()
 }
+func renderSig(method string, hs []sigHdr, body string) string { return renderSigAt(method, hs, body, -1) }
 
 func (g *G) filler() sigHdr {
 	return sigHdr{sipsp.HdrOther, false, g.pick("X-"+g.alnum(1, 5)+": "+g.alnum(0, 8), "Expires: "+fmt.Sprint(g.n(4000)), "Route: <sip:p"+g.alnum(1, 3)+".example.com;lr>",
@@ -1294,7 +1306,11 @@ func propC19(g *G, w *CaseW, rep *Report, thorough bool) {
 	n := scale(thorough, 1500, 20000)
 	for i := 0; i < n; i++ {
 		method, hs, _, _, _ := g.sigMessage()
-		base := renderSig(method, hs, "")
+		clAt := -1
+		if g.p(60) {
+			clAt = g.n(len(hs) + 1)
+		}
+		base := renderSigAt(method, hs, "", clAt)
 		r0 := emitMsgSig(w, []byte(base), 40, -1, 0, 0)
 		rep.Cases++
 		rep.OracleEval++
@@ -1357,18 +1373,28 @@ func propC19(g *G, w *CaseW, rep *Report, thorough bool) {
 				v = append(v, h)
 			}
 			v = append(v, g.filler())
-			variants["fillers inserted"] = renderSig(method, v, "")
+			variants["fillers inserted"] = renderSigAt(method, v, "", -1)
 		}
-		if len(hs) > 0 { // fingerprinted headers repeated later (with other values for the non-string ones)
+		if len(hs) > 0 { // fingerprinted headers repeated later (anywhere after their first occurrence)
 			v := append([]sigHdr{}, hs...)
 			for k := 0; k < 1+g.n(3); k++ {
-				h := hs[g.n(len(hs))]
+				j := g.n(len(hs))
+				h := hs[j]
 				if h.t == sipsp.HdrVia {
-					h.line = "Via: SIP/2.0/TCP other.example.org;branch=z9hG4bKzzz"
+					h.line = g.pick("Via", "v") + ": SIP/2.0/TCP other.example.org;branch=" + g.pick("z9hG4bK-a.b_c", "z9hG4bKzzz", "1-2-3-4@x", "deadbeef0123")
 				}
-				v = append(v, h)
+				// position: anywhere after the first occurrence of that header in v
+				first := 0
+				for q := range v {
+					if v[q].t == h.t {
+						first = q
+						break
+					}
+				}
+				at := first + 1 + g.n(len(v)-first)
+				v = append(v[:at:at], append([]sigHdr{h}, v[at:]...)...)
 			}
-			variants["fingerprinted headers repeated later"] = renderSig(method, v, "")
+			variants["fingerprinted headers repeated later"] = renderSigAt(method, v, "", clAt)
 		}
 		{ // values of other headers / parts outside the fingerprinted strings changed
 			var v []sigHdr
